@@ -469,7 +469,13 @@ func typeOfJSONValue(v any) ExprType {
 	case map[string]any:
 		props := make(map[string]ExprType, len(v))
 		for k, v := range v {
-			props[k] = typeOfJSONValue(v)
+			// Property names are case insensitive and looked up in lower case
+			k = strings.ToLower(k)
+			t := typeOfJSONValue(v)
+			if p, ok := props[k]; ok {
+				t = p.Merge(t)
+			}
+			props[k] = t
 		}
 		return NewStrictObjectType(props)
 	case nil:
